@@ -277,6 +277,10 @@ mod imp {
                 break;
             }
             if let Ok(o) = F::arbitrary(&mut Unstructured::new(&base[k..])) {
+                // comparing two DIFFERENT generated values must not fault either, and is symmetric
+                if (o == *field) != (*field == o) {
+                    return false;
+                }
                 let mut d = o.clone();
                 d.clone_from(field);
                 if d != *field {
@@ -285,6 +289,23 @@ mod imp {
                 let mut e = field.clone();
                 e.clone_from(&o);
                 if e != o {
+                    return false;
+                }
+            }
+        }
+        // the same entropy cut short gives a value that shares a prefix with `field` but has other lengths
+        // (the generators read lengths from the END of the input): compare those both ways as well
+        for cut in [1usize, 2, 5, 8, 16, 33] {
+            if cut >= base.len() {
+                break;
+            }
+            if let Ok(o) = F::arbitrary(&mut Unstructured::new(&base[..base.len() - cut])) {
+                if (o == *field) != (*field == o) {
+                    return false;
+                }
+            }
+            if let Ok(o) = F::arbitrary_take_rest(Unstructured::new(&base[..base.len() - cut])) {
+                if (o == *field) != (*field == o) {
                     return false;
                 }
             }
